@@ -273,6 +273,20 @@ pub fn main(args: &Args) -> i32 {
                 push(&mut b, &mut n, format!("set/pos/value/{}/{pos}/{over}", fill.name()), super::guarded(|| set_event_fill(&sols, fill)));
             }
         }
+        // every solution is validated, whatever the solutions before it look like (seeded change
+        // V2-C16: an early `return Ok(())` at the first solution without predicate data)
+        for over in [false, true] {
+            for (what, bad) in [("slots", SolDesc { pd: vec![1; if over { 101 } else { 100 }], ms: vec![] }),
+                                ("len", SolDesc { pd: vec![2, if over { 10_001 } else { 10_000 }], ms: vec![] })] {
+                for first in [SolDesc { pd: vec![], ms: vec![] }, SolDesc { pd: vec![0], ms: vec![] }, SolDesc { pd: vec![], ms: vec![MutD { c: 1, kid: 9, kl: 1, vl: 1 }] }] {
+                    let tag = format!("{}{}", first.pd.len(), first.ms.len());
+                    let sols = vec![first.clone(), bad.clone()];
+                    push(&mut b, &mut n, format!("set/pos/after/{}/{what}/{tag}/{over}", fill.name()), super::guarded(|| set_event_fill(&sols, fill)));
+                    let sols = vec![first.clone(), first.clone(), bad.clone(), first.clone()];
+                    push(&mut b, &mut n, format!("set/pos/mid/{}/{what}/{tag}/{over}", fill.name()), super::guarded(|| set_event_fill(&sols, fill)));
+                }
+            }
+        }
         // duplicates are recognised by key equality under every fill
         let sols = vec![SolDesc { pd: vec![], ms: vec![MutD { c: 1, kid: 5, kl: 3, vl: 1 }, MutD { c: 1, kid: 6, kl: 3, vl: 1 }, MutD { c: 1, kid: 5, kl: 3, vl: 2 }] }];
         push(&mut b, &mut n, format!("set/pos/dup/{}", fill.name()), super::guarded(|| set_event_fill(&sols, fill)));
